@@ -102,6 +102,148 @@ theorem staticcallI_static (s : IState) (hs : s.isStatic = true) : StaticOutcome
     refine ks_bind (ks_getS h3) fun x s4 h4 hx => ?_
     exact ks_pure h4 ⟨_, rfl, rfl, fun _ => Or.inl rfl⟩
 
+/-! ## the EOF call family (EXTCALL, EXTDELEGATECALL, EXTSTATICCALL) and EOFCREATE -/
+
+theorem ks_requireEof {b : Bool} {s : IState} (hs : s.isStatic = b) : KS b (fun _ => True) (requireEof s) := by
+  unfold requireEof; split
+  · exact .halt
+  · exact .ok hs trivial
+
+theorem ks_pop2 {b : Bool} {s : IState} (hs : s.isStatic = b) : KS b (fun _ => True) (pop2 s) := by
+  unfold pop2
+  refine ks_bind (ks_popN hs 2) fun vs s' hs' _ => ?_
+  split
+  · exact ks_pure hs' trivial
+  · exact .fault
+
+theorem ks_popExtcallTarget {b : Bool} {s : IState} (hs : s.isStatic = b) :
+    KS b (fun _ => True) (popExtcallTarget s) := by
+  unfold popExtcallTarget
+  refine ks_bind (ks_pop1 hs) fun t s' hs' _ => ?_
+  split
+  · exact .halt
+  · exact ks_pure hs' trivial
+
+theorem ks_extcallInput {b : Bool} {s : IState} (hs : s.isStatic = b) : KS b (fun _ => True) (extcallInput s) := by
+  unfold extcallInput
+  refine ks_bind (ks_pop2 hs) fun p s1 h1 _ => ?_
+  obtain ⟨off, size⟩ := p
+  refine ks_bind (ks_resizeMemRange h1 off size) fun q s2 h2 _ => ?_
+  obtain ⟨a, c⟩ := q
+  show KS b (fun _ => True) ((if a < c then memSliceRange a c else pure []) s2)
+  split
+  · exact ks_memSliceRange h2 a c
+  · exact ks_pure h2 trivial
+
+theorem ks_extcallGasCalc {b : Bool} {s : IState} (hs : s.isStatic = b) (r : HostResp) (tv : Bool) :
+    KS b (fun _ => True) (extcallGasCalc r tv s) := by
+  unfold extcallGasCalc
+  refine ks_bind (ks_requireSome hs r) fun _ s1 h1 _ => ?_
+  refine ks_bind (ks_gasCharge h1 _) fun _ s2 h2 _ => ?_
+  refine ks_bind (ks_getS h2) fun x s3 h3 _ => ?_
+  by_cases hc : U64ops.saturatingSub x.gas.remaining (max (x.gas.remaining / 64) 5000) < GasCalc.MIN_CALLEE_GAS
+  · rw [if_pos hc]
+    refine ks_bind (m := modifyS _) (Q := fun _ => True) (.ok (by exact h3) trivial) fun _ s4 h4 _ => ?_
+    exact ks_pure h4 trivial
+  · rw [if_neg hc]
+    exact ks_bind (ks_gasCharge h3 _) fun _ s4 h4 _ => ks_pure h4 trivial
+
+theorem toDoneOptAction_static {e : Exec (Option Action)}
+    (h : KS true (fun a => ∀ x, a = some x → ∃ i, x = .call i ∧ StaticCall i) e) :
+    StaticDone e.toDoneOptAction := by
+  cases h with
+  | @ok a s _ hq =>
+    cases a with
+    | none => exact .next
+    | some x => obtain ⟨i, rfl, hi⟩ := hq x rfl; exact .call hi
+  | halt => exact .halt
+  | fault => exact .fault
+
+theorem hostCallOptAction_static {β} {pre : M (HostOp × β)} {post : β → HostResp → M (Option Action)} {s : IState}
+    (Qb : β → Prop) (hpre : KS true (fun p => mutating p.1 = false ∧ Qb p.2) (pre s))
+    (hpost : ∀ b r s', s'.isStatic = true → Qb b →
+      KS true (fun a => ∀ x, a = some x → ∃ i, x = .call i ∧ StaticCall i) (post b r s')) :
+    StaticOutcome (hostCallOptAction pre post s) := by
+  unfold hostCallOptAction
+  cases hp : pre s with
+  | ok p s' =>
+    obtain ⟨op, b⟩ := p
+    rw [hp] at hpre
+    cases hpre with
+    | ok hs' hq => exact .host hq.1 (fun r => toDoneOptAction_static (hpost b r s' hs' hq.2))
+  | halt r o s' => exact .pure .halt
+  | fault f => exact .pure .fault
+
+theorem extcallI_static (s : IState) (hs : s.isStatic = true) : StaticOutcome (extcallI s) := by
+  unfold extcallI
+  refine hostCallOptAction_static (fun b => b.2.2 = 0) ?_ ?_
+  · refine ks_bind (ks_requireEof hs) fun _ s0 h0 _ => ?_
+    refine ks_bind (ks_popExtcallTarget h0) fun target s1 h1 _ => ?_
+    refine ks_bind (ks_extcallInput h1) fun input s2 h2 _ => ?_
+    refine ks_bind (ks_pop1 h2) fun value s3 h3 _ => ?_
+    refine ks_bind (ks_getS h3) fun x s4 h4 hx => ?_
+    split
+    · exact .halt
+    · rename_i hc
+      refine ks_pure h4 ⟨rfl, ?_⟩
+      show value = 0
+      apply Classical.byContradiction
+      intro hv
+      exact hc ⟨hx, by simpa using hv⟩
+  · intro b r s' hs' hq
+    obtain ⟨target, input, value⟩ := b
+    refine ks_bind (ks_extcallGasCalc hs' r _) fun g s1 h1 _ => ?_
+    cases g with
+    | none => exact ks_pure h1 (fun x hx => nomatch hx)
+    | some gl =>
+      refine ks_bind (ks_getS h1) fun x s2 h2 hx => ?_
+      refine ks_pure h2 fun y hy => ?_
+      cases hy
+      exact ⟨_, rfl, hx, fun _ => Or.inl hq⟩
+
+theorem extdelegatecallI_static (s : IState) (hs : s.isStatic = true) : StaticOutcome (extdelegatecallI s) := by
+  unfold extdelegatecallI
+  refine hostCallOptAction_static (fun _ => True) ?_ ?_
+  · refine ks_bind (ks_requireEof hs) fun _ s0 h0 _ => ?_
+    refine ks_bind (ks_popExtcallTarget h0) fun target s1 h1 _ => ?_
+    refine ks_bind (ks_extcallInput h1) fun input s2 h2 _ => ?_
+    exact ks_pure h2 ⟨rfl, trivial⟩
+  · intro b r s' hs' _
+    obtain ⟨target, input⟩ := b
+    refine ks_bind (ks_extcallGasCalc hs' r _) fun g s1 h1 _ => ?_
+    cases g with
+    | none => exact ks_pure h1 (fun x hx => nomatch hx)
+    | some gl =>
+      refine ks_bind (ks_getS h1) fun x s2 h2 hx => ?_
+      refine ks_pure h2 fun y hy => ?_
+      cases hy
+      exact ⟨_, rfl, hx, fun h => nomatch h⟩
+
+theorem extstaticcallI_static (s : IState) (hs : s.isStatic = true) : StaticOutcome (extstaticcallI s) := by
+  unfold extstaticcallI
+  refine hostCallOptAction_static (fun _ => True) ?_ ?_
+  · refine ks_bind (ks_requireEof hs) fun _ s0 h0 _ => ?_
+    refine ks_bind (ks_popExtcallTarget h0) fun target s1 h1 _ => ?_
+    refine ks_bind (ks_extcallInput h1) fun input s2 h2 _ => ?_
+    exact ks_pure h2 ⟨rfl, trivial⟩
+  · intro b r s' hs' _
+    obtain ⟨target, input⟩ := b
+    refine ks_bind (ks_extcallGasCalc hs' r _) fun g s1 h1 _ => ?_
+    cases g with
+    | none => exact ks_pure h1 (fun x hx => nomatch hx)
+    | some gl =>
+      refine ks_bind (ks_getS h1) fun x s2 h2 hx => ?_
+      refine ks_pure h2 fun y hy => ?_
+      cases hy
+      exact ⟨_, rfl, rfl, fun _ => Or.inl rfl⟩
+
+theorem eofcreateI_static (s : IState) (hs : s.isStatic = true) : StaticOutcome (eofcreateI s) := by
+  unfold eofcreateI
+  refine hostCallAction_static (fun _ => False) ?_ (fun b r s' _ hq => False.elim hq)
+  unfold eofcreatePre
+  refine ks_bind (ks_requireEof hs) fun _ s0 h0 _ => ?_
+  exact ks_bind (ks_requireNonStatic h0) fun _ _ _ hq => False.elim hq
+
 /-- one instruction in a static frame -/
 theorem execInstr_static (i : Instr) (s : IState) (hs : s.isStatic = true) : StaticOutcome (execInstr i s) := by
   unfold execInstr
@@ -128,6 +270,10 @@ theorem execInstr_static (i : Instr) (s : IState) (hs : s.isStatic = true) : Sta
       | exact callcodeI_static s hs
       | exact delegatecallI_static s hs
       | exact staticcallI_static s hs
+      | exact eofcreateI_static s hs
+      | exact extcallI_static s hs
+      | exact extdelegatecallI_static s hs
+      | exact extstaticcallI_static s hs
       | exact .pure .fault
 
 /-- **`static_step_no_mutation` and `static_inherited` (C10) on the interpreter of the whole-EVM model**: for EVERY
